@@ -605,11 +605,14 @@ def rule_single_point(r):
             "max_pd, and the kernel evaluates the nominal value instead of returning the background" if cond else "mechanism: %s" % mech)
 
 
+from . import gpu as _gpu
 RULES = [
     ("R-C01-carry", 61 * 3 * 4, "accumulator carry/reset pairing in every kernel", make_c_rule("R-C01-carry")),
     ("R-C01-gate", 61 * 3 * 4, "VALID and strict cutoff gate every accumulation", make_c_rule("R-C01-gate")),
     ("R-C01-restart", 61 * 3 * 3, "loop restart protocol per level", make_c_rule("R-C01-restart")),
     ("R-C01-loops", 300, "counted loops of every kernel run 0 <= i < bound, step 1", make_c_rule("R-C01-loops")),
+    ("R-C01-drivers", 50, "the dll, OpenCL and CUDA drivers agree on kernel arguments, result size, read-back, kernel selection and q layout", _gpu.rule_drivers),
+    ("R-C01-gpu", 2000, "OpenCL configuration of every unit: work-item bound, carried q-point sums, gated accumulation", _gpu.make_gpu_rule()),
     ("R-C01-struct", 60, "ProblemDetails layout = CallDetails.buffer views", rule_struct),
     ("R-C01-values", 9, "value vector layout and NUM_VALUES", rule_values),
     ("R-C01-stride", 9, "stride/selection construction", rule_stride),
